@@ -433,4 +433,171 @@ theorem initState_get (schema : Schema) (i : Nat) (f : FieldSpec) (h : schema[i]
     (initState (R := R) schema)[i]? = some (initSlot f) := by
   simp [initState, h]
 
+
+/-! ### which error is reported -/
+
+theorem stepSlot_not_missing (de : FieldSpec → V → Except ε R) (f : FieldSpec) (s : Slot R) (v : V)
+    (e : Err ε) (h : stepSlot de f s v = .error e) : ∀ n, e ≠ .missing n := by
+  intro n hn
+  subst hn
+  unfold stepSlot at h
+  split at h <;> try (split at h <;> simp at h)
+  all_goals simp at h
+
+theorem stepAt_not_missing (de : FieldSpec → V → Except ε R) : ∀ (schema : Schema) (st : List (Slot R))
+    (i : Nat) (v : V) (e : Err ε), stepAt de schema st i v = .error e → ∀ n, e ≠ .missing n := by
+  intro schema
+  induction schema with
+  | nil => intro st i v e h; simp [stepAt] at h
+  | cons a schema ih =>
+    intro st i v e h
+    cases st with
+    | nil => simp [stepAt] at h
+    | cons s0 st =>
+      cases i with
+      | zero =>
+        simp only [stepAt] at h
+        cases hs : stepSlot de a s0 v with
+        | ok s' => simp [hs] at h
+        | error e' =>
+          simp [hs] at h; subst h
+          exact stepSlot_not_missing de a s0 v e' hs
+      | succ i =>
+        simp only [stepAt] at h
+        cases hs : stepAt de schema st i v with
+        | ok s' => simp [hs] at h
+        | error e' =>
+          simp [hs] at h; subst h
+          exact ih st i v e' hs
+
+/-- the loop never reports a missing field: its errors are `invalid type` (key), a value error or
+`duplicate_field` -/
+theorem loop_not_missing (schema : Schema) (de : FieldSpec → V → Except ε R) :
+    ∀ (pairs : List (Key × V)) (st : List (Slot R)) (e : Err ε),
+      loop schema de pairs st = .error e → ∀ n, e ≠ .missing n := by
+  intro pairs
+  induction pairs with
+  | nil => intro st e h; simp [loop] at h
+  | cons p rest ih =>
+    intro st e h
+    obtain ⟨k, v⟩ := p
+    rw [loop] at h
+    unfold fieldOf at h
+    cases hk : fieldIdx schema k with
+    | none => simp [hk] at h; subst h; intro n hn; cases hn
+    | some t =>
+      cases t with
+      | none => simp only [hk] at h; exact ih st e h
+      | some i =>
+        simp only [hk] at h
+        cases hs : stepAt de schema st i v with
+        | ok st' => simp only [hs] at h; exact ih st' e h
+        | error e' =>
+          simp [hs] at h; subst h
+          exact stepAt_not_missing de schema st i v e' hs
+
+/-- which field `extract` reports: the first one, in declaration order, whose slot is empty and
+that has no default -/
+theorem extract_missing (schema : Schema) : ∀ (st : List (Slot R)) (e : Err ε),
+    st.length = schema.length → extract (ε := ε) (R := R) schema st = .error e →
+    ∃ (i : Nat) (f : FieldSpec), schema[i]? = some f ∧ e = .missing f.name ∧ st[i]? = some (.opt none) ∧
+      canDefault f = .no ∧
+      ∀ (j : Nat) (g : FieldSpec), j < i → schema[j]? = some g → ¬ (st[j]? = some (.opt none) ∧ canDefault g = .no) := by
+  induction schema with
+  | nil => intro st e _ h; simp [extract] at h
+  | cons a schema ih =>
+    intro st e hl h
+    cases st with
+    | nil => simp at hl
+    | cons s0 st =>
+      have hl' : st.length = schema.length := by simpa using hl
+      simp only [extract] at h
+      have key : (¬ (s0 = .opt none ∧ canDefault a = .no)) → extract (ε := ε) schema st = .error e →
+          ∃ (i : Nat) (f : FieldSpec), (a :: schema)[i]? = some f ∧ e = .missing f.name ∧ (s0 :: st)[i]? = some (.opt none) ∧
+            canDefault f = .no ∧
+            ∀ (j : Nat) (g : FieldSpec), j < i → (a :: schema)[j]? = some g →
+              ¬ ((s0 :: st)[j]? = some (.opt none) ∧ canDefault g = .no) := by
+        intro h0 hrest
+        obtain ⟨i, f, h1, h2, h3, h4, h5⟩ := ih st e hl' hrest
+        refine ⟨i + 1, f, by simpa using h1, h2, by simpa using h3, h4, ?_⟩
+        intro j g hj hg
+        cases j with
+        | zero =>
+          simp at hg; subst hg
+          simpa using h0
+        | succ j => simpa using h5 j g (by omega) (by simpa using hg)
+      cases s0 with
+      | vec l =>
+        cases hout : extract (ε := ε) schema st with
+        | ok out => simp [hout] at h
+        | error e' => simp [hout] at h; subst h; exact key (by simp) hout
+      | opt o =>
+        cases o with
+        | some r =>
+          cases hout : extract (ε := ε) schema st with
+          | ok out => simp [hout] at h
+          | error e' => simp [hout] at h; subst h; exact key (by simp) hout
+        | none =>
+          cases hcd : canDefault a with
+          | no =>
+            simp [hcd] at h; subst h
+            exact ⟨0, a, by simp, rfl, by simp, hcd, by intro j g hj; omega⟩
+          | yes =>
+            simp only [hcd] at h
+            cases hout : extract (ε := ε) schema st with
+            | ok out => simp [hout] at h
+            | error e' => simp [hout] at h; subst h; exact key (by simp [hcd]) hout
+          | path =>
+            simp only [hcd] at h
+            cases hout : extract (ε := ε) schema st with
+            | ok out => simp [hout] at h
+            | error e' => simp [hout] at h; subst h; exact key (by simp [hcd]) hout
+
+
+theorem deAll_length (de : FieldSpec → V → Except ε R) (f : FieldSpec) :
+    ∀ (vs : List V) (rs : List R), deAll de f vs = some rs → rs.length = vs.length := by
+  intro vs
+  induction vs with
+  | nil => intro rs h; simp [deAll] at h; subst h; rfl
+  | cons v vs ih =>
+    intro rs h
+    simp only [deAll] at h
+    cases hd : de f v with
+    | error e => simp [hd] at h
+    | ok r =>
+      cases hda : deAll de f vs with
+      | none => simp [hd, hda] at h
+      | some rs' =>
+        simp [hd, hda] at h; subst h
+        simp [ih rs' hda]
+
+/-- a slot that is still empty after its field's arm ran over the field's values: the field did
+not occur -/
+theorem foldSlot_empty (de : FieldSpec → V → Except ε R) (f : FieldSpec) (vs : List V)
+    (h : foldSlot de f vs (initSlot f) = .ok (.opt none)) : vs = [] := by
+  cases hk : f.kind with
+  | duplicated =>
+    have hinit : initSlot (R := R) f = .vec [] := by simp [initSlot, hk]
+    rw [hinit] at h
+    obtain ⟨rs, _, hrs⟩ := (foldSlot_duplicated de f hk _ _ _).mp h
+    cases hrs
+  | plain =>
+    have hinit : initSlot (R := R) f = .opt none := by simp [initSlot, hk]
+    rw [hinit] at h
+    rcases (foldSlot_plain de f hk _ _).mp h with ⟨h0, _⟩ | ⟨v, r, _, _, h3⟩
+    · exact h0
+    · cases h3
+  | takeLast =>
+    have hinit : initSlot (R := R) f = .opt none := by simp [initSlot, hk]
+    rw [hinit] at h
+    obtain ⟨rs, hrs, h3⟩ := (foldSlot_takeLast de f hk _ _ _).mp h
+    have hlen := deAll_length de f _ rs hrs
+    cases rs with
+    | nil => simpa using hlen.symm
+    | cons r rs' =>
+      exfalso
+      cases hl : (r :: rs').getLast? with
+      | none => simp at hl
+      | some x => rw [hl] at h3; cases h3
+
 end Jomini.Derive
